@@ -104,14 +104,17 @@ SchedBigProg(x) ==
    steps |-> Contig(f) \o FlattenSteps([i \in 1..Len(plans) |-> <<[op |-> "Stream", stream |-> 1, bytes |-> f, reader |-> plans[i]],
                                                                     [op |-> "ReadPacket", h |-> 2, stream |-> 1]>>])]
 
-FaultBigCases == IF 3 \in TYPES THEN {[kind |-> "faultbig", n |-> n] : n \in BigLens} ELSE {}
+FaultBigCases == IF 3 \in TYPES THEN {[kind |-> "faultbig", n |-> n, few |-> FALSE] : n \in BigLens}
+                                     \cup {[kind |-> "faultbig", n |-> 70000, few |-> TRUE]}      \* above 64 KiB in every tier, few plans
+                 ELSE {}
 FaultBigProg(x) ==
   LET f == BigFrame(x.n)
       hl == Len(f) - x.n - 6
-      cuts == {0, 1, 2, 3, hl - 1, hl, hl + 1, hl + 5, hl + 6, hl + 7, Len(f) \div 2, Len(f) - 1, Len(f)} \cap (0..Len(f))
+      cuts == IF x.few THEN {hl + 7, Len(f) \div 2, Len(f) - 1, Len(f)}
+              ELSE {0, 1, 2, 3, hl - 1, hl, hl + 1, hl + 5, hl + 6, hl + 7, Len(f) \div 2, Len(f) - 1, Len(f)} \cap (0..Len(f))
       plans == SetToSeq({[chunks |-> cmp, fate |-> ft, with |-> w, cut |-> cut] :
-                           cut \in cuts, ft \in {"eof", "err"}, w \in BOOLEAN,
-                           cmp \in {<<>>, <<1, 1, 1, 1>>}} ) IN
+                           cut \in cuts, ft \in {"eof", "err"}, w \in (IF x.few THEN {FALSE} ELSE BOOLEAN),
+                           cmp \in (IF x.few THEN {<<>>} ELSE {<<>>, <<1, 1, 1, 1>>})} ) IN
   [fam |-> "fault", meta |-> [len |-> Len(f), big |-> TRUE, n |-> Len(plans)],
    steps |-> FlattenSteps([i \in 1..Len(plans) |-> <<[op |-> "Stream", stream |-> 1, bytes |-> f, reader |-> plans[i]],
                                                       [op |-> "ReadPacket", h |-> 2, stream |-> 1]>>])]
@@ -157,6 +160,21 @@ SeqCases ==
   \cup {[kind |-> "seq", fs |-> <<b, a>>, tr |-> <<>>, with |-> TRUE] :
          a \in {<<192, 0>>, <<208, 0>>, <<224, 0>>, <<240, 0>>, <<64, 2, 0, 1>>}, b \in SeqFrames}
 
+(* long streams: one frame kept in hand while many further frames are read from the same stream (a returned packet must  *)
+(* neither change nor grow, whatever is read later)                                                                 *)
+SeqLongCases == {[kind |-> "seqlong", first |-> a, rest |-> b, n |-> n] :
+                   a \in {<<50, 8, 0, 1, 97, 0, 7, 2, 11, 5>>, <<48, 5, 0, 1, 97, 0, 122>>, <<130, 7, 0, 1, 0, 0, 1, 97, 1>>,
+                          <<144, 4, 0, 1, 0, 1>>, <<32, 3, 0, 0, 0>>, <<0, 2, 7, 7>>},
+                   b \in {<<224, 4, 0, 2, 11, 9>>, <<64, 6, 0, 7, 0, 2, 11, 99>>, <<32, 5, 0, 0, 2, 11, 5>>,
+                          <<176, 12, 0, 1, 7, 38, 0, 1, 107, 0, 1, 118, 17, 0>>, <<48, 5, 0, 1, 97, 0, 122>>},
+                   n \in (IF Thorough THEN {40, 300} ELSE {40})}
+SeqLongProg(x) ==
+  [fam |-> "seq", meta |-> [kind |-> x.kind, n |-> x.n],
+   steps |-> <<[op |-> "Stream", stream |-> 1, bytes |-> x.first \o Concat([i \in 1..x.n |-> x.rest]), observe |-> "all"],
+               [op |-> "ReadPacket", h |-> 1, stream |-> 1]>>
+             \o [i \in 1..x.n |-> [op |-> "ReadPacket", h |-> 2 + (i % 3), stream |-> 1]]
+             \o <<[op |-> "ReadPacket", h |-> 9, stream |-> 1], [op |-> "WriteTo", h |-> 1], [op |-> "Diag", h |-> 1]>>]
+
 SeqHugeCases == IF Thorough THEN {[kind |-> "seqhuge", n |-> 1048580]} ELSE {}
 SeqHugeProg(x) ==
   [fam |-> "seq", meta |-> [kind |-> x.kind],
@@ -198,7 +216,12 @@ FirstProg(x) ==
                 [op |-> "ReadPacket", h |-> 2, stream |-> 1], [op |-> "ReadPacket", h |-> 3, stream |-> 1],
                 \* the same frame again, a zero-length read before its first byte and before its body
                 [op |-> "Stream", stream |-> 1, bytes |-> f, reader |-> [chunks |-> <<0, 1, 0, 1, 0>>, fate |-> "eof", with |-> FALSE]],
-                [op |-> "ReadPacket", h |-> 4, stream |-> 1] >>]
+                [op |-> "ReadPacket", h |-> 4, stream |-> 1],
+                \* the frame as the second of a stream read through a *bufio.Reader; the transport pauses right after its fixed header
+                [op |-> "Stream", stream |-> 1, bytes |-> <<192, 0>> \o f \o <<208, 0>>, key |-> "bufio",
+                 reader |-> [chunks |-> <<2 + Len(f) - Len(x.body)>>, fate |-> "eof", with |-> FALSE]],
+                [op |-> "ReadPacket", h |-> 5, stream |-> 1], [op |-> "ReadPacket", h |-> 6, stream |-> 1],
+                [op |-> "ReadPacket", h |-> 7, stream |-> 1] >>]
 
 (***************************************************************************)
 (* family "wf": the grids of C17                                           *)
@@ -340,11 +363,14 @@ Fill(n, b) == [i \in 1..n |-> b]
 CredShapes == {p \in ConnectPkts({TRUE}, {NoWill, [w |-> TRUE, wq |-> 1, wr |-> FALSE]}, {TRUE}, BOOLEAN, {60},
                                  FewPropSeqs(1), FewPropSeqs(WILLCTX), {Txt(3), <<>>}, {Bin(3), <<>>}) : TRUE}
 CredCases ==
-  {[kind |-> "cred", p |-> p, n |-> n, variant |-> vr, decoded |-> dc, reuse |-> FALSE] :
+  {[kind |-> "cred", p |-> p, n |-> n, variant |-> vr, decoded |-> dc, reuse |-> FALSE, wk |-> 0] :
      p \in CredShapes, n \in CredLens, vr \in 1..6, dc \in BOOLEAN}
   \* the two CONNECT values are reused: a frame without credentials is decoded INTO each of them
-  \cup {[kind |-> "cred", p |-> p, n |-> n, variant |-> vr, decoded |-> FALSE, reuse |-> TRUE] :
+  \cup {[kind |-> "cred", p |-> p, n |-> n, variant |-> vr, decoded |-> FALSE, reuse |-> TRUE, wk |-> 0] :
          p \in CredShapes, n \in {1, 9}, vr \in {1, 3}}
+  \* wk > 0: before the diagnostics each packet is written to a writer that fails after wk bytes, and once to one that works
+  \cup {[kind |-> "cred", p |-> p, n |-> n, variant |-> 1, decoded |-> FALSE, reuse |-> FALSE, wk |-> wk] :
+         p \in CredShapes, n \in {9, 255}, wk \in {1, 10, 40}}
 (* the two secrets of a pair; variants make a secret coincide with other field contents *)
 SecretA(x) == IF x.variant = 1 THEN Fill(x.n, 65)
               ELSE IF x.variant = 2 THEN [i \in 1..x.n |-> Txt(3)[((i - 1) % 3) + 1]]        \* repeats the client identifier
@@ -370,6 +396,12 @@ CredProg(x) ==
              THEN a \o b \o <<[op |-> "Buf", buf |-> 1, bytes |-> <<0, 4, 77, 81, 84, 84, 5, 2, 0, 60, 0, 0, 2, 105, 100>>],
                               [op |-> "Unmarshal", h |-> 1, buf |-> 1, key |-> "into"], [op |-> "Unmarshal", h |-> 3, buf |-> 1, key |-> "into"],
                               [op |-> "Diag", h |-> 1], [op |-> "Diag", h |-> 3], [op |-> "CmpDiag", hs |-> <<1, 3>>]>>
+             ELSE IF x.wk > 0
+             THEN a \o b \o <<[op |-> "WriteTo", h |-> 1, writer |-> [kind |-> "fail", k |-> x.wk]], [op |-> "Diag", h |-> 1],
+                              [op |-> "WriteTo", h |-> 3, writer |-> [kind |-> "fail", k |-> x.wk]], [op |-> "Diag", h |-> 3],
+                              [op |-> "CmpDiag", hs |-> <<1, 3>>],
+                              [op |-> "WriteTo", h |-> 1], [op |-> "Diag", h |-> 1], [op |-> "WriteTo", h |-> 3], [op |-> "Diag", h |-> 3],
+                              [op |-> "CmpDiag", hs |-> <<1, 3>>]>>
              ELSE IF ~x.decoded
              THEN a \o b \o <<[op |-> "Diag", h |-> 1], [op |-> "Diag", h |-> 3], [op |-> "CmpDiag", hs |-> <<1, 3>>]>>
              ELSE a \o b \o <<[op |-> "WriteTo", h |-> 1], [op |-> "Stream", stream |-> 1, from |-> 1], [op |-> "ReadPacket", h |-> 5, stream |-> 1],
@@ -406,15 +438,28 @@ ForeignOK == { <<64, 6, 0, 7, 0, 2, 11, 99>>,                    \* PUBACK carry
                <<32, 5, 0, 0, 2, 11, 5>>, <<224, 4, 0, 2, 11, 9>> }
 OwnCases ==
   {[kind |-> "own", a |-> a, b |-> b, mode |-> md] : a \in OwnFrames, b \in OwnFrames \cup ForeignOK, md \in 1..3}
+  \cup {[kind |-> "own", a |-> a, b |-> b, mode |-> 4] : a \in OwnFrames, b \in {<<192, 0>>}}
   \cup {[kind |-> "ownall", a |-> a, t |-> t] : a \in OwnFrames, t \in 0..15}
   \cup {[kind |-> "owninto", a |-> a] : a \in OwnFrames \cup OddConnects}
+  \* every packet type carrying all its fields, then a body that ends early decoded INTO it: what a failed decode leaves behind
+  \cup {[kind |-> "ownintocut", t |-> t, n |-> n] : t \in 1..15, n \in {0, 1, 2, 3, 4, 6, 7, 8, 9, 11, 12, 14, 20}}
 Renumber(ops, base) ==        \* BuildOps uses handles 1 (packet) and 2 (will): shift them
   [i \in 1..Len(ops) |-> LET s == ops[i] IN
      IF s.op = "New" THEN [op |-> "New", h |-> s.h + base, type |-> s.type]
      ELSE CallOp(s.h + base, s.m, IF s.m = "SetWill" THEN <<[h |-> 2 + base]>> ELSE s.args)]
 
 OwnProg(x) ==
-  IF x.kind = "owninto" THEN
+  IF x.kind = "ownintocut" THEN
+     LET body == BodyOf(Encode(FullPkt(x.t)))
+         cutb == SubSeq(body, 1, IF x.n < Len(body) THEN x.n ELSE Len(body)) IN
+     [fam |-> "own", meta |-> [kind |-> x.kind, t |-> x.t],
+      steps |-> <<[op |-> "Buf", buf |-> 1, bytes |-> cutb, observe |-> "all"]>>
+                \o Renumber(BuildOps(FullPkt(x.t)), 0) \o Renumber(BuildOps(FullPkt(x.t)), 10)
+                \o <<[op |-> "WriteTo", h |-> 11],
+                     [op |-> "Unmarshal", h |-> 1, buf |-> 1, key |-> "into"], [op |-> "Diag", h |-> 1], [op |-> "WriteTo", h |-> 1],
+                     [op |-> "WriteTo", h |-> 11], [op |-> "Diag", h |-> 11],
+                     [op |-> "Unmarshal", h |-> 3, type |-> TypeName(x.t), buf |-> 1], [op |-> "Diag", h |-> 3]>>]
+  ELSE IF x.kind = "owninto" THEN
      \* two packets of the frame's type built through the API (sharing whatever constructors share), a fresh one,
      \* then the frame's body decoded INTO the first: the others must not change
      LET t == x.a[1] \div 16  tn == TypeName(t) IN
@@ -451,6 +496,14 @@ OwnProg(x) ==
             [op |-> "ScribbleSlice", h |-> 2, key |-> "AuthData"], [op |-> "ScribbleSlice", h |-> 2, key |-> "Password"],
             [op |-> "ScribbleSlice", h |-> 2, key |-> "Data"],
             [op |-> "WriteTo", h |-> 1], [op |-> "Diag", h |-> 3]>>
+        ELSE IF x.mode = 4 THEN  \* a frame read, every slice its packet handed out overwritten by the caller, the same frame read again
+          <<[op |-> "Stream", stream |-> 1, bytes |-> x.a, observe |-> "all"], [op |-> "ReadPacket", h |-> 1, stream |-> 1],
+            [op |-> "ScribbleSlice", h |-> 1, key |-> "Payload"], [op |-> "ScribbleSlice", h |-> 1, key |-> "CorrelationData"],
+            [op |-> "ScribbleSlice", h |-> 1, key |-> "AuthData"], [op |-> "ScribbleSlice", h |-> 1, key |-> "Password"],
+            [op |-> "ScribbleSlice", h |-> 1, key |-> "Data"],
+            [op |-> "Stream", stream |-> 2, bytes |-> x.a], [op |-> "ReadPacket", h |-> 2, stream |-> 2], [op |-> "Diag", h |-> 2],
+            [op |-> "Buf", buf |-> 1, bytes |-> BodyOf(x.a)], [op |-> "Unmarshal", h |-> 3, type |-> ta, buf |-> 1, key |-> "new"],
+            [op |-> "WriteTo", h |-> 3]>>
         ELSE                     \* a fresh packet built next to decoded ones
           <<[op |-> "New", h |-> 1, type |-> ta, observe |-> "all"], [op |-> "New", h |-> 2, type |-> ta],
             [op |-> "Buf", buf |-> 1, bytes |-> BodyOf(x.a)],
@@ -499,7 +552,7 @@ ConcCases ==
 ConcFrameSets == { << <<0, 3, 97, 97, 97>>, <<0, 5, 99, 99, 99, 99, 99>>, <<0, 2, 7, 7>> >>,
                    << <<32, 6, 1, 0, 3, 33, 0, 20>>, <<32, 3, 0, 0, 0>>, <<0, 1, 9>> >>,
                    << <<48, 5, 0, 1, 97, 0, 122>>, <<50, 6, 0, 1, 97, 0, 7, 0>>, <<64, 2, 0, 1>>, <<224, 0>> >> }
-ConcFrameCases == IF 1 \in TYPES THEN {[kind |-> "concframes", fs |-> fs] : fs \in ConcFrameSets}
+ConcFrameCases == IF 1 \in TYPES THEN {[kind |-> "concframes", fs |-> fs, after |-> af] : fs \in ConcFrameSets, af \in 0..2}
                                         \cup {[kind |-> "concpool", j |-> j] : j \in 1..3} \cup {[kind |-> "concmalformed", j |-> j] : j \in 1..3}
                   ELSE {}
 (* a PUBLISH decoded earlier stays in use (written, inspected) while other goroutines decode frames that carry a *)
@@ -522,9 +575,21 @@ ConcMalformedProg(x) ==
                                                       ELSE <<"WellFormed", "String", "ReadFrame", "ReadFrame">>,
                 frames |-> << <<64, 1, 0>>, <<32, 6, 0, 0, 3, 17, 0, 0>>, <<130, 7, 0, 1, 0, 0, 5, 97, 1>>, <<48, 1, 0>> >>,
                 procs |-> 4, n |-> IF Thorough THEN 2000 ELSE 300]>>]
+(* after = 1, 2: before the goroutines start, streams that end / fail inside a frame body and inside a header were read *)
+(* (whatever the error paths leave behind in shared state is there when the concurrent calls arrive)                    *)
+FaultyReads(af) ==
+  IF af = 0 THEN <<>>
+  ELSE LET ft == IF af = 1 THEN "eof" ELSE "err" IN
+       <<[op |-> "Stream", stream |-> 2, bytes |-> <<48, 12, 0, 1, 97, 0, 1, 2, 3, 4, 5, 6, 7, 8>>, reader |-> [chunks |-> <<>>, fate |-> ft, with |-> FALSE, cut |-> 9]],
+         [op |-> "ReadPacket", h |-> 7, stream |-> 2],
+         [op |-> "Stream", stream |-> 2, bytes |-> <<130, 9, 0, 1, 0, 0, 3, 97, 98, 99, 1>>, reader |-> [chunks |-> <<3, 3>>, fate |-> ft, with |-> TRUE, cut |-> 8]],
+         [op |-> "ReadPacket", h |-> 7, stream |-> 2],
+         [op |-> "Stream", stream |-> 2, bytes |-> <<16, 130, 1>>, reader |-> [chunks |-> <<>>, fate |-> ft, with |-> FALSE, cut |-> 2]],
+         [op |-> "ReadPacket", h |-> 7, stream |-> 2],
+         [op |-> "Stream", stream |-> 2, bytes |-> <<64, 3, 0>>], [op |-> "ReadPacket", h |-> 7, stream |-> 2]>>
 ConcFramesProg(x) ==
-  [fam |-> "conc", meta |-> [kind |-> x.kind],
-   steps |-> <<[op |-> "New", h |-> 1, type |-> "PingReq"],
+  [fam |-> "conc", meta |-> [kind |-> x.kind, after |-> x.after],
+   steps |-> FaultyReads(x.after) \o <<[op |-> "New", h |-> 1, type |-> "PingReq"],
                [op |-> "Conc", hs |-> <<1>>, ops |-> <<"ReadFrame">>, frames |-> x.fs,
                 procs |-> IF Thorough THEN 8 ELSE 4, n |-> IF Thorough THEN 5000 ELSE 500]>>]
 
@@ -580,9 +645,11 @@ ReuseProg(x) ==
           [op |-> "New", h |-> 1, type |-> "Subscribe"], [op |-> "CallSpread", h |-> 1, m |-> "AddFilters", from |-> 6, key |-> ""],
           [op |-> "SliceSet", h |-> 6, n |-> 0, args |-> << <<Txt(3), 2>> >>],
           [op |-> "New", h |-> 2, type |-> "Subscribe"], [op |-> "CallSpread", h |-> 2, m |-> "AddFilters", from |-> 6, key |-> ""],
-          CallOp(1, "AddFilters", << <<Txt(8), 0>> >>),
-          [op |-> "SliceSet", h |-> 6, n |-> x.k, args |-> << <<Txt(2), 1>> >>],
+          CallOp(1, "AddFilters", << <<Txt(8), 0>> >>), CallOp(2, "AddFilters", << <<Txt(6), 2>> >>),
           CallOp(1, "SetPacketID", <<1>>), CallOp(2, "SetPacketID", <<2>>),
+          [op |-> "WriteTo", h |-> 1], [op |-> "Stream", stream |-> 1, from |-> 1], [op |-> "ReadPacket", h |-> 8, stream |-> 1],
+          [op |-> "WriteTo", h |-> 2], [op |-> "Stream", stream |-> 1, from |-> 2], [op |-> "ReadPacket", h |-> 9, stream |-> 1],
+          [op |-> "SliceSet", h |-> 6, n |-> x.k, args |-> << <<Txt(2), 1>> >>],
           [op |-> "WriteTo", h |-> 1], [op |-> "WriteTo", h |-> 2]>>
      ELSE IF x.n = 4 THEN  \* the same will attached again after it was completed; and replaced by another will
         <<[op |-> "New", h |-> 1, type |-> "Connect", observe |-> "all"], [op |-> "Pub", h |-> 2, args |-> <<x.k % 3, Txt(3), Bin(6)>>],
@@ -639,7 +706,8 @@ ManyProg(x) == ReadProg("many", Encode(ManyPkt(x)), [kind |-> x.kind, n |-> x.n,
 Cases2 ==
   IF FAMILY = "sched" THEN SchedCases \cup SchedBigCases
   ELSE IF FAMILY = "fault" THEN FaultCases \cup FaultBigCases
-  ELSE IF FAMILY = "seq" THEN SeqCases \cup SeqHugeCases
+  ELSE IF FAMILY = "seq" THEN SeqCases \cup SeqHugeCases \cup SeqLongCases
+  ELSE IF FAMILY = "seqlong" THEN SeqLongCases
   ELSE IF FAMILY = "huge" THEN SeqHugeCases          \* a frame above 1 MiB followed by two more on the same stream (thorough tier only)
   ELSE IF FAMILY = "first" THEN {x \in FirstCases : FirstValid(x)}
   ELSE IF FAMILY = "wf" THEN WfPublishCases \cup WfSubscribeCases \cup WfFilterCases \cup WfWireCases
@@ -663,6 +731,7 @@ ProgOf2(x) ==
   ELSE IF x.kind = "fault" THEN FaultProg(x)
   ELSE IF x.kind = "seq" THEN SeqProg(x)
   ELSE IF x.kind = "seqhuge" THEN SeqHugeProg(x)
+  ELSE IF x.kind = "seqlong" THEN SeqLongProg(x)
   ELSE IF x.kind = "first" THEN FirstProg(x)
   ELSE IF x.kind = "wfpub" THEN WfPubProg(x)
   ELSE IF x.kind = "wfsub" THEN WfSubProg(x)
@@ -674,7 +743,7 @@ ProgOf2(x) ==
   ELSE IF x.kind \in {"wfaultbig", "wfaultbigc"} THEN WFaultBigProg(x)
   ELSE IF x.kind = "odd" THEN OddProg(x)
   ELSE IF x.kind = "cred" THEN CredProg(x)
-  ELSE IF x.kind \in {"own", "ownall", "owninto"} THEN OwnProg(x)
+  ELSE IF x.kind \in {"own", "ownall", "owninto", "ownintocut"} THEN OwnProg(x)
   ELSE IF x.kind \in {"vbienc", "vbidec"} THEN VbiProg(x)
   ELSE IF x.kind = "vbiapi" THEN VbiApiProg(x)
   ELSE IF x.kind = "reuse" THEN ReuseProg(x)
@@ -686,7 +755,7 @@ ProgOf2(x) ==
   ELSE ProgOf(x)
 
 Theorems2 ==
-  IF c.kind \in {"frame", "build", "cut", "undef", "bool", "prefix", "rlfifth"} THEN Theorems
+  IF c.kind \in {"frame", "build", "cut", "undef", "bool", "prefix", "rlfifth", "vbi5", "badsubid", "foreign", "dupprop", "badutf8"} THEN Theorems
   ELSE IF c.kind = "cred" THEN Len(SecretA(c)) = Len(SecretB(c)) /\ SecretA(c) # SecretB(c)
   ELSE IF c.kind = "vbienc" THEN \A v \in {y \in VbiValues : y >= c.lo /\ y < c.lo + 64} :
                                    /\ VBI(v) = VBI4(v) /\ Len(VBI(v)) = VBILen(v)
